@@ -82,7 +82,9 @@ theorem runTop_bodies {s : St} (h : BodiesInv s) : BodiesInv (runTop s) ∧ (run
         · exact hr
         · exact h2 b (by rw [hs]; exact List.mem_cons_of_mem _ hb')
 
-theorem stepLoop_bodies {s : St} (h : BodiesInv s) : BodiesInv (stepLoop s) ∧ (stepLoop s).qreq = s.qreq := by
+/-- (`EventLoopThread` scenario: its `loop()` is not entered again) -/
+theorem stepLoop_bodies {s : St} (he : s.elt = true) (h : BodiesInv s) :
+    BodiesInv (stepLoop s) ∧ (stepLoop s).qreq = s.qreq := by
   have hr := runTop_bodies h
   obtain ⟨h1, hd, h2, h3, h4⟩ := h
   loop_cases
@@ -132,7 +134,7 @@ open MuduoVerif.Gen.Loop
 theorem stepLoop_owner {tail : List Sub} {s : St} (h : OwnerInv tail s) : OwnerInv tail (stepLoop s) := by
   obtain ⟨he, hb, hq, hi, ho, hw⟩ := h
   obtain ⟨t1, t2, t3, t4, mv⟩ := stepLoop_move s
-  obtain ⟨hb', hqr⟩ := stepLoop_bodies hb
+  obtain ⟨hb', hqr⟩ := stepLoop_bodies he hb
   have hL : s.L = 1 := by simp [St.L, he]
   have hq' : QuitInv (stepLoop s) := stepLoop_quit hq
   have hi' : EltInv (stepLoop s) := stepLoop_eltInv hi
@@ -147,6 +149,7 @@ theorem stepLoop_owner {tail : List Sub} {s : St} (h : OwnerInv tail s) : OwnerI
     | run _ _ _ e1 _ _ => rw [e1]; exact hl
     | die hp _ _ _ _ _ _ =>
       have := hq.goneReq (Or.inr (Or.inr (by simp [hp, exited]))); simp [hf] at this
+    | again _ hel _ _ _ _ _ => simp [he] at hel
   have keepUnborn : s.phase = .unborn → (stepLoop s).phase = .unborn := by
     intro hp; unfold stepLoop stepLoopFD stepLoopG; simp [hp]
   have keepDead : s.phase = .dead → (stepLoop s).phase = .dead := by
@@ -310,8 +313,8 @@ theorem step_owner {tail : List Sub} (htail : tail = [] ∨ tail = [.destroy]) {
 theorem init_owner (wl : Bool) (tbl dtbl : TaskId → List Sub) (pre body tail : List Sub)
     (htbl : ∀ x, userOnly (tbl x) = true) (hdtbl : ∀ x, userOnly (dtbl x) = true) (hpre : userOnly pre = true)
     (hbody : userOnly body = true) :
-    OwnerInv tail (init true wl tbl dtbl pre (fun k => if k = 0 then .startLoop :: (body ++ tail) else [])) := by
-  refine ⟨rfl, ⟨htbl, hdtbl, ?_, by simp [init], rfl⟩, init_quit _ _ _ _ _ _, init_eltInv _ _ _ _ _ _, ?_, ?_⟩
+    OwnerInv tail (init true wl tbl dtbl pre [] (fun k => if k = 0 then .startLoop :: (body ++ tail) else [])) := by
+  refine ⟨rfl, ⟨htbl, hdtbl, ?_, by simp [init], rfl⟩, init_quit _ _ _ _ _ _ _, init_eltInv _ _ _ _ _ _ _, ?_, ?_⟩
   · intro b hb
     simp only [init] at hb
     split at hb
